@@ -84,9 +84,9 @@ func (c *Ctx) mapDelete(st *State, fr *Frame, mt types.Type, m, k Term) {
 // map range: ghost visited set per Range instruction -------------------------------------
 
 type rangeState struct {
-	m    Term
-	mi   mapInfoT
-	vis  Term // (Array K Bool)
+	m     Term
+	mi    mapInfoT
+	vis   Term // (Array K Bool)
 	isStr bool
 }
 
